@@ -35,7 +35,7 @@ ASSUMPTIONS = [
 
 @st.composite
 def _case(draw, tier):
-    kind = draw(st.sampled_from(["g1", "g1", "g1r", "g2", "g2", "loop", "nested"]))
+    kind = draw(st.sampled_from(["g1", "g1r", "g1r", "g2", "g2", "loop", "nested", "nestscope", "twocycles"]))
     c = {"kind": kind}
     if kind == "g1":
         c["nodes"] = draw(gen.permuted(draw(gen.g1_nodes(2, 7))))
@@ -49,6 +49,42 @@ def _case(draw, tier):
         c["sigma"] = sigma
         c["renames"] = {n["name"]: draw(gen.rename_history({p: sigma[p] for p in n["params"]}, "inputs", "ri_"))
                         + draw(gen.rename_history({o: sigma[o] for o in n["outs"]}, "outputs", "ro_")) for n in topo}
+    elif kind == "nestscope":
+        # one interval of a flat DAG wrapped (no renames) with bindings INSIDE the nested graph, possibly on a name that a
+        # plain outside node also takes; select / with_entrypoint may then put the wrapper out of scope
+        topo = draw(gen.g1_nodes(3, 7, default_on_edge=0.0))
+        n = len(topo)
+        a = draw(st.integers(0, n - 1))
+        b = draw(st.integers(a + 1, n))
+        S = topo[a:b]
+        allprod = ref.producers(topo)
+        ext_pure = list(dict.fromkeys(q for x in S for q in x["params"] if q not in allprod))
+        shared = [q for q in ext_pure if any(q in x["params"] for x in topo[:a] + topo[b:])]
+        ib = set(draw(gen.subset(ext_pure, 0.4))) | set(draw(gen.subset(shared, 0.6)))
+        wrapper = {"k": "graph", "name": "wrap", "graph": {"nodes": [dict(x) for x in S], "name": "wrap", "bind": {q: ["ibound", q] for q in sorted(ib)}}}
+        c["nodes"] = draw(gen.permuted(topo[:a] + [wrapper] + topo[b:]))
+    elif kind == "twocycles":
+        # 2-3 data-independent cycles (accumulators, or two-node rings) whose only link is one gate that reads from and
+        # routes to all of them: every cycle has its own entry points and needs its own seed
+        k = draw(st.integers(2, 3))
+        nodes = []
+        heads = []
+        for i in range(k):
+            if draw(st.booleans()):
+                nodes.append({"k": "func", "name": f"c{i}", "params": [f"s{i}"] + ([f"x{i}"] if draw(st.booleans()) else []), "defaults": {}, "outs": [f"s{i}"]})
+            else:
+                nodes.append({"k": "func", "name": f"c{i}", "params": [f"s{i}"], "defaults": {}, "outs": [f"m{i}"]})
+                nodes.append({"k": "func", "name": f"d{i}", "params": [f"m{i}"], "defaults": {}, "outs": [f"s{i}"]})
+            heads.append(f"c{i}")
+        multi = draw(st.booleans())
+        targets = draw(st.permutations(heads + ["END"]))
+        if multi:
+            table = [[t for t in heads if prob(draw, 0.7)] for _ in range(draw(st.integers(1, 3)))] + [["END"]]
+        else:
+            table = draw(st.lists(st.sampled_from(heads + ["END"]), min_size=1, max_size=3)) + ["END"]
+        nodes.append({"k": "route", "name": "gg", "params": [f"s{i}" for i in range(k)], "defaults": {}, "targets": list(targets), "multi": multi, "fallback": None,
+                      "table": table, "default_open": draw(st.booleans())})
+        c["nodes"] = draw(gen.permuted(nodes))
     elif kind == "g2":
         c["nodes"], _ = draw(gen.g2_nodes(max_nodes=5, p_fail=0.0, p_cycle=0.6))
     elif kind == "loop":
@@ -142,7 +178,7 @@ def _check_sufficiency(g, ctx, pick, tag, ev, extra_kw=None, labels=None, shape=
     out, _ = _run(g, vals, max_iterations=15, error_handling="continue", **kw)
     if out.status == "raised":
         msg = str(out.error)
-        if isinstance(out.error, ValueError) and "Ambiguous cycle entry" in msg and len(chosen) > 1:
+        if isinstance(out.error, ValueError) and "Ambiguous cycle entry" in msg and len(chosen) > 1 and _legit_ambiguous(g, vals):
             ev.discard("ambiguous_entry_in_implicit_component")
             return vals, kw, False
         raise Violation(
@@ -150,6 +186,19 @@ def _check_sufficiency(g, ctx, pick, tag, ev, extra_kw=None, labels=None, shape=
             f"[{tag}] supplying required={g.inputs.required} + entry points {chosen} ({J(vals)}) was rejected: {type(out.error).__name__}: {msg[:300]}",
             error=type(out.error).__name__, shape=shape or "flat",
         )
+    if chosen and "entrypoint" in kw and not extra_kw:
+        # the same values WITHOUT naming an entry point: every cyclic component is seeded through exactly one of its listed
+        # entry points, which is what the documentation asks for; only the documented ambiguity may be refused
+        ctx.reset()
+        kw2 = {k: v for k, v in kw.items() if k != "entrypoint"}
+        out2, _ = _run(g, vals, max_iterations=15, error_handling="continue", **kw2)
+        if out2.status == "raised" and not (isinstance(out2.error, ValueError) and "Ambiguous cycle entry" in str(out2.error) and _legit_ambiguous(g, vals)):
+            raise Violation(
+                "c08.sufficiency",
+                f"[{tag}, entry point not named] supplying required={g.inputs.required} + the parameters of entry points {chosen} ({J(vals)}) was rejected: {type(out2.error).__name__}: {str(out2.error)[:300]}",
+                error=type(out2.error).__name__, shape=shape or "flat", implicit_entry=True,
+            )
+        ctx.reset()
     if out.status == "failed":
         from hypergraph import InfiniteLoopError
 
@@ -160,6 +209,18 @@ def _check_sufficiency(g, ctx, pick, tag, ev, extra_kw=None, labels=None, shape=
                 error=type(out.error).__name__, shape=shape or "flat",
             )
     return vals, kw, True
+
+
+def _legit_ambiguous(g, vals):
+    """The documented ambiguity: inside ONE cyclic component (data edges) the supplied values satisfy two entry points with
+    different parameter sets.  Values that seed two different components are not ambiguous."""
+    eps = g.inputs.entrypoints
+    have = set(vals)
+    for comp in _cyclic_components(g):
+        sat = {tuple(eps[n]) for n in comp if n in eps and set(eps[n]) <= have}
+        if len(sat) > 1:
+            return True
+    return False
 
 
 def _check_necessity(g, ctx, vals, kw, tag, extra_kw=None):
@@ -268,9 +329,29 @@ def check_case(case, ev):
     if len(sp.required) != len(req) or len(sp.optional) != len(opt):
         raise Violation("c08.duplicates", f"required={sp.required} optional={sp.optional}")
     # ---- (e) reference classification for gate-free DAGs
-    if kind == "g1":
+    if kind in ("g1", "nestscope"):
         bound_now = {n: 1 for n in sp.bound}
-        r_req, r_opt, _ = ref.input_spec(case["nodes"], bound_now, sel, entry)
+        ref_nodes = case["nodes"]
+        if kind == "nestscope":
+            # the wrapper as ONE unit of scoping: its inputs are what its nodes take from outside; a name bound inside or
+            # defaulted inside has a fallback; graph-level bound names that only come from an out-of-scope wrapper do not count
+            ref_nodes = []
+            for x in case["nodes"]:
+                if x["k"] != "graph":
+                    ref_nodes.append(x)
+                    continue
+                S = x["graph"]["nodes"]
+                sprod = {o for y in S for o in y["outs"]}
+                ext = list(dict.fromkeys(q for y in S for q in y["params"] if q not in sprod))
+                dfl = {q: 1 for q in ext if q in x["graph"].get("bind", {}) or any(q in y.get("defaults", {}) for y in S)}
+                ref_nodes.append({"k": "func", "name": x["name"], "params": ext, "defaults": dfl, "outs": [o for y in S for o in y["outs"]]})
+            labels.add("wrapper_with_inner_binding_shared_outside" if any(
+                x["k"] == "graph" and any(q in y.get("params", []) for q in x["graph"].get("bind", {}) for y in case["nodes"] if y["k"] != "graph") for x in case["nodes"]) else "wrapper")
+            own_bound = set(bound_names) - set(ub if bound_names else [])
+            bound_now = {n: 1 for n in own_bound}
+        r_req, r_opt, r_active = ref.input_spec(ref_nodes, bound_now, sel, entry)
+        if kind == "nestscope" and not any(x["k"] == "graph" and x["name"] in r_active for x in case["nodes"]):
+            labels.add("wrapper_out_of_scope")
         if r_req != req or r_opt != opt or sp.entrypoints:
             raise Violation("c08.reference_spec", f"reported required={sorted(req)} optional={sorted(opt)} entrypoints={sp.entrypoints}; reference required={sorted(r_req)} optional={sorted(r_opt)} (bound={sorted(bound_now)} select={sel} entry={entry})",
                             what="required" if r_req != req else "optional")
@@ -323,7 +404,7 @@ def _check_sufficiency_rt(g, gs, S, ctx, pick, ev, derived=None):
     ctx.reset()
     out, _ = _run(g, vals, max_iterations=15, error_handling="continue", select=S, **kw)
     if out.status == "raised":
-        if isinstance(out.error, ValueError) and "Ambiguous cycle entry" in str(out.error):
+        if isinstance(out.error, ValueError) and "Ambiguous cycle entry" in str(out.error) and _legit_ambiguous(gs, vals):
             ev.discard("ambiguous_entry_in_implicit_component")
             return vals, kw, False
         raise Violation("c08.runtime_select_sufficiency", f"[{tag}] supplying what graph.select(*S) reports (required={gs.inputs.required}) was rejected: {type(out.error).__name__}: {str(out.error)[:300]}",
